@@ -119,6 +119,20 @@ def mutate(r, kind, doc):
     op = r.choice(["none", "delete", "unknown-key", "bad-tag", "wrong-container", "unknown-key-nested"])
     if op == "none":
         return "none", d, True, True
+    if kind == "testing":
+        if op in ("unknown-key", "unknown-key-nested"):
+            d["zzz_unknown"] = 1
+            return "unknown-key-testing", d, False, True
+        if op == "bad-tag" and d.get("typ"):
+            d["typ"] = {**d["typ"], "t": "NoSuchType"}
+            return op, d, False, False
+        if op == "wrong-container":
+            d[r.choice(["typ", "value", "optype", "sum_type"])] = [1]
+            return op, d, False, False
+        if op == "delete" and d.get("value", {}).get("v") == "Sum":
+            del d["value"]["tag"]
+            return op, d, False, False
+        return None
     if kind == "extension":
         if op == "delete":
             del d[r.choice(["version", "name", "runtime_reqs", "types", "values", "operations"])]
@@ -174,7 +188,30 @@ def corpus_doc(r):
     from vf.gen.prog import gen_program
     from vf.interp import Interp
 
-    k = r.choice(["hugr", "hugr", "hugr", "package", "extension"])
+    k = r.choice(["hugr", "hugr", "hugr", "package", "extension", "testing"])
+    if k == "testing":
+        # a document of the testing model: any subset of {type, sum type, value, operation}, encoded from generated
+        # descriptors
+        from vf.gen.types import Builder, Gen
+        from vf.gen.values import VBuilder, VGen, constable
+        from vf.props import c05
+
+        g = Gen(r, allow_vars=False)
+        B = Builder()
+        doc = {"version": "live"}
+        if r.random() < 0.7:
+            doc["typ"] = c05.dump(B.ty(g.ty(2)))
+        if r.random() < 0.4:
+            doc["sum_type"] = c05.dump(B.ty(["sum", [g.row(1, 2, in_row=False) for _ in range(r.randint(0, 3))]]))
+        if r.random() < 0.5:
+            vg = VGen(r)
+            td = vg.const_type(2)
+            if constable(td):
+                doc["value"] = c05.dump(VBuilder(B).val(vg.value(td, 2)))
+        if r.random() < 0.5:
+            c = c05.gen_op(r, 1)
+            doc["optype"] = {"parent": 0, **c05.dump_op(c05.build_op(c, Builder()))}
+        return k, doc
     if k == "hugr":
         p = gen_program(r, budget=8, max_depth=2)
         return k, json.loads(Interp().run(p).to_json())
@@ -196,12 +233,17 @@ def acceptance(ctx, mode, cases):
 
     strict = mode == "strict"
     cfg = ConfigDict(strict=True, extra="forbid") if strict else ConfigDict(strict=False, extra="allow")
+    from hugr._serialization.testing_hugr import TestingHugr
+
     SerialHugr._pydantic_rebuild(cfg, force=True)
+    TestingHugr._pydantic_rebuild(cfg, force=True)
     fn = "hugr_schema_strict_live.json" if strict else "hugr_schema_live.json"
     schema = json.loads((env.REPO / "specification" / "schema" / fn).read_text())
     val = {k: jsonschema.Draft202012Validator({"$ref": f"#/$defs/{n}", "$defs": schema["$defs"]})
            for k, n in (("hugr", "SerialHugr"), ("package", "Package"), ("extension", "Extension"))}
-    model = {"hugr": SerialHugr, "package": Package, "extension": Extension}
+    tschema = json.loads((env.REPO / "specification" / "schema" / ("testing_" + fn)).read_text())
+    val["testing"] = jsonschema.Draft202012Validator({"$ref": "#/$defs/TestingHugr", "$defs": tschema["$defs"]})
+    model = {"hugr": SerialHugr, "package": Package, "extension": Extension, "testing": TestingHugr}
     for case in cases:
         kind, mop, doc, exp = case["kind"], case["mutation"], case["doc"], case["expect"][0 if strict else 1]
         ctx.count(f"monitor:acceptance-agreement-{mode}")
@@ -215,7 +257,7 @@ def acceptance(ctx, mode, cases):
         rec = {"kind": kind, "mutation": mop, "mode": mode, "rng": case["rng"]}
         if js != pd:
             key = None
-            if strict and mop in ("unknown-key", "unknown-key-nested") and not js and pd:
+            if strict and mop in ("unknown-key", "unknown-key-nested", "unknown-key-testing") and not js and pd:
                 key = "strict-rebuild-leaves-stale-nested-validators"
             ctx.disc(key, f"acceptance-disagreement[{mode}.{mop}]", rec, {"published-schema": js},
                      {"pydantic": pd}, stratum="acceptance", case=rec)
@@ -239,7 +281,7 @@ def gen_cases(ctx, n):
         ctx.case("acceptance", {"kind": kind, "mutation": mop, "rng": ["acc", i]}, mop != "none")
         # systematically: every top-level key of the document that is required by both formalisms
         if len(cases) < 400:
-            tops = {"hugr": ["nodes", "edges"], "package": ["modules"],
+            tops = {"hugr": ["nodes", "edges"], "package": ["modules"], "testing": [],
                     "extension": ["version", "name", "runtime_reqs", "types", "values", "operations"]}[kind]
             for key in tops:
                 d2 = {k: v for k, v in doc.items() if k != key}
